@@ -75,6 +75,8 @@ class JsonLoadModel(Model):
                     raise AnalysisBroken('R8.10: rapidjson getter %s is not in the kind table' % name)
                 it.act('GET', name, need in self.flags)
                 return Sym(('GET', name))
+        if name in ('forward', 'move') and q.startswith('std::') and args:
+            return it.ev(fr, args[0], depth)          # a helper that forwards the getter's result to the conversion
         if name == 'ConvertByPolicy':
             src = it.ev(fr, args[0], depth) if args else TOP
             it.act('CONVERT', src.tag[1] if isinstance(src, Sym) and isinstance(src.tag, tuple) and src.tag[0] == 'GET' else '?')
